@@ -9,7 +9,7 @@ from ..algebra import Extractor, Rat, Unsupported
 from ..cfg import CFG
 from ..core import Ctx
 from ..model import body_stmts, dotted, kwarg, norm, walk_no_nested
-from .common import CACHING_DECORATORS, assigned_value, check_annotator_key, enclosing, expand_locals, is_cmp, prog, resolve_local
+from .common import CACHING_DECORATORS, assigned_value, check_annotator_key, conditions_at, enclosing, source_order, xnorm, expand_locals, is_cmp, prog, resolve_local
 
 CLS = "CorpusShufflingTool"
 
@@ -133,7 +133,7 @@ def rule_perturbations(ctx: Ctx):
         ad = _calls(O, cont, "add")
         okr = len(rm) == 1 and [norm(x) for x in rm[0].args] == [a, u]
         gi = enclosing(O, rm[0], (ast.If,)) if rm else []
-        okp = len(gi) == 1 and norm(gi[0].test) in (f"np.random.random() < {mag_of(f)}", f"numpy.random.random() < {mag_of(f)}", f"np.random.uniform() < {mag_of(f)}")
+        okp = len(gi) == 1 and norm(resolve_local(f.node, gi[0].test)) in (f"np.random.random() < {mag_of(f)}", f"numpy.random.random() < {mag_of(f)}", f"np.random.uniform() < {mag_of(f)}")
         ctx.check(okr and okp, "R-C19-2", f, rm[0] if rm else I, "false negatives: each unit is removed with probability magnitude (strict <, so never at magnitude 0)",
                   bad_detail="false-negative removal is not `if random() < magnitude: remove(unit)`", key="fneg-remove")
         oks = False
@@ -141,8 +141,9 @@ def rule_perturbations(ctx: Ctx):
             sec = norm(ad[0].args[1]).split(".")[0]
             sdef = [s for s in O.body if isinstance(s, ast.Assign) and norm(s.targets[0]) == sec]
             gi2 = enclosing(O, ad[0], (ast.If,))
-            oks = len(sdef) == 1 and norm(sdef[0].value) in (f"np.random.choice({cont}._annotations[{a}])", f"np.random.choice({cont}[{a}])") and \
-                len(gi2) == 1 and norm(gi2[0].test) in (f"len({cont}._annotations[{a}]) == 0", f"len({cont}[{a}]) == 0") and \
+            _x = lambda e: xnorm(f.node, e)
+            oks = len(sdef) == 1 and _x(sdef[0].value) in (f"np.random.choice({cont}._annotations[{a}])", f"np.random.choice({cont}[{a}])") and \
+                len(gi2) == 1 and _x(gi2[0].test) in (f"len({cont}._annotations[{a}]) == 0", f"len({cont}[{a}]) == 0") and \
                 [norm(x) for x in ad[0].args] == [a, f"{sec}.segment", f"{sec}.annotation"] and not any(ad[0] is x for x in ast.walk(I))
         ctx.check(oks and len(ad) == 1, "R-C19-2", f, ad[0] if ad else O, "the only addition re-adds one of the annotator's own former units when all were removed: no annotator ends up empty, nothing new appears",
                   bad_detail="false negatives add something else than the 'security' unit of the same annotator, guarded by emptiness", key="fneg-security")
@@ -289,8 +290,8 @@ def rule_perturbations(ctx: Ctx):
             for c in main:
                 sg = c.args[1]
                 if isinstance(sg, ast.Call) and dotted(sg.func) == "Segment":
-                    segs.append((norm(sg.args[0]), norm(sg.args[1])))
-            labels = {norm(c.args[2]) for c in main}
+                    segs.append((xnorm(f.node, sg.args[0], stop=(ts, cont)), xnorm(f.node, sg.args[1], stop=(ts, cont))))
+            labels = {xnorm(f.node, c.args[2], stop=(ts, cont)) for c in main}
             if len(segs) == 2 and labels == {f"{ts}.annotation"}:
                 S, E = f"{ts}.segment.start", f"{ts}.segment.end"
                 (a1, b1), (a2, b2) = segs
@@ -308,7 +309,7 @@ def rule_perturbations(ctx: Ctx):
                   "a split removes one unit and adds its two pieces [start, cut] and [cut, end] with the same label: +1 unit, total duration kept ((end-cut)+(cut-start) = end-start)",
                   bad_detail="a split does not replace one unit by the two pieces sharing the cut with the same label", key="split-pieces")
         fb = [c for c in ad if c not in main]
-        okf = all(norm(c.args[1]).endswith(".segment") and norm(c.args[2]).endswith(".annotation") for c in fb) and (not trs or (len(trs[0].handlers) == 1 and norm(trs[0].handlers[0].type) == "ValueError"))
+        okf = all(xnorm(f.node, c.args[1]).endswith(".segment") and xnorm(f.node, c.args[2]).endswith(".annotation") for c in fb) and (not trs or (len(trs[0].handlers) == 1 and norm(trs[0].handlers[0].type) == "ValueError"))
         ctx.check(okf, "R-C19-2", f, fb[0] if fb else None, "if a piece would have zero length the original unit is put back unchanged", construct="fallback", key="split-fallback")
 
 
@@ -331,21 +332,27 @@ def rule_driver(ctx: Ctx):
     allc = [c for c in walk_no_nested(f.node) if isinstance(c, ast.Call) and isinstance(c.func, ast.Attribute) and c.func.attr.endswith("_shuffle") and norm(c.func.value) == sn]
     ctx.check(len(allc) == len(table), "R-C19-4", f, None, "no perturbation runs outside its flag: with all flags off (or magnitude 0) the corpus is the exact copy",
               construct="perturbation calls", key="no-extra")
-    inc = [i for i in f.node.body if isinstance(i, ast.If) and norm(i.test) == "include_ref"]
+    inc = [i for i in f.node.body if isinstance(i, ast.If) and norm(i.test) in ("include_ref", "not include_ref")]
     ok = False
+
+    def _with_ref(st) -> bool:
+        # st runs exactly when include_ref holds (inside `if include_ref:` or after `if not include_ref: return ...`)
+        ks = [(norm(t) == "include_ref") == pol for t, pol in conditions_at(f.node, st) if norm(t) in ("include_ref", "not include_ref")]
+        return bool(ks) and all(ks)
     if len(inc) == 1:
-        asr = [s for s in inc[0].body if isinstance(s, ast.Assert)]
-        loops = [L for L in inc[0].body if isinstance(L, ast.For)]
-        if len(asr) == 1 and len(loops) == 1 and norm(asr[0].test) == f"{sn}._reference_annotator not in {cv}.annotators" and inc[0].body.index(asr[0]) < inc[0].body.index(loops[0]):
+        asr = [s for s in walk_no_nested(f.node) if isinstance(s, ast.Assert) and _with_ref(s)]
+        loops = [L for L in walk_no_nested(f.node) if isinstance(L, ast.For) and _with_ref(L)]
+        order = source_order(f.node)
+        if len(asr) == 1 and len(loops) == 1 and norm(asr[0].test) == f"{sn}._reference_annotator not in {cv}.annotators" and order[id(asr[0])] < order[id(loops[0])]:
             u = norm(loops[0].target)
             ad = _calls(loops[0], cv, "add")
             ok = len(ad) == 1 and [norm(x) for x in ad[0].args] == [f"{sn}._reference_annotator", f"{u}.segment", f"{u}.annotation"] and \
-                norm(loops[0].iter) in (f"{sn}._reference_continuum[next(iter({sn}._reference_continuum.annotators))]", f"{sn}._reference_continuum[{sn}._reference_annotator]",
+                xnorm(f.node, loops[0].iter) in (f"{sn}._reference_continuum[next(iter({sn}._reference_continuum.annotators))]", f"{sn}._reference_continuum[{sn}._reference_annotator]",
                                         f"{sn}._reference_continuum.iter_annotator({sn}._reference_annotator)")
     ctx.check(ok, "R-C19-4", f, inc[0] if inc else None, "include_ref adds the reference's units under the reference annotator after checking the name is free",
               bad_detail="include_ref does not (assert absence, then) add every reference unit under the reference annotator", key="include-ref")
     rets = [r for r in walk_no_nested(f.node) if isinstance(r, ast.Return)]
-    ctx.check(len(rets) == 1 and norm(rets[0].value) == cv, "R-C19-4", f, rets[0] if rets else None, "the shuffled corpus is returned", key="return")
+    ctx.check(len(rets) >= 1 and all(norm(r.value) == cv for r in rets), "R-C19-4", f, rets[0] if rets else None, "the shuffled corpus is returned", key="return")
 
 
 def run(ctx: Ctx):
